@@ -13,4 +13,14 @@ META = {
   "design_ref": "DESIGN.md 6 C16",
   "technique": "TLA+ spec (KValues, KCalendar) + TLC enumeration replayed into klog value types + TLC trace validation of every observation",
  },
+ "C15": {
+  "text": "One TLC state per calendar year: TLC checks the calendar laws of KCalendar (civil/ordinal bijection, weekday cycle, "
+          "period containment/shape/tiling, Thursday rule = January-4th rule) on every date of the year and emits the year as a replay "
+          "case; klog.Date and period.* are evaluated on every date and every period pattern of the year and TLC judges the recorded "
+          "tables against KCalendar; report-bucket hashes are compared globally over a window of years. Exhaustive over all 3652425 "
+          "dates and all pattern strings in the thorough tier.",
+  "design_ref": "DESIGN.md 6 C15",
+  "technique": "TLA+ calendar spec (KCalendar) model-checked per year with TLC + replay into klog.Date/period.* + TLC trace validation of the recorded tables",
+ },
 }
+HOOK_COMMITS = []
